@@ -557,6 +557,148 @@ Example C05_parse_dump_abs_nonvacuous :
             Para (PN [ mkF [] (s "Package") (s ": bar") ]) ]%list.
 Proof. vm_compute. repeat split. Qed.
 
+(** 11. The bridge between the correspondence and the property: on every case of the check
+        (Repro/DocCheck.v) on which the implementation behaved like the model ([agree]: exception
+        kind, dump, live read-out and fresh parse after every operation), the property as [holds]
+        judges it on the observations - every edit local (the new dump is the old one with one field
+        text replaced / appended / removed, found as the hole between the unchanged prefix and
+        suffix), on lines of its own, under the original spelling, reading back through a fresh
+        parse as the Spec's [expected_read] - is true.  Proved from theorems 1-8 (paragraph level:
+        [setitem_readback], [set_simple_spec], [set_raw_spec], [p_remove_spec], [run_op_wf],
+        [new_field_position], [getitem_new]) plus, new in Repro/DocCheckProofs.v, the reading of
+        the duplicate-fields class ([read_para_rows]), the value read back after
+        set_field_to_simple_value / set_field_from_raw_string ([setter_para]) and the progress
+        of valid edits ([set_progress]).
+
+        Side condition [judged] (Repro/DocCheckProofs.v), checked on every step up to the first one
+        outside the property's quantifier (where [holds] stops judging too):
+        (J1) no paragraph of the current document repeats a field name ([agree] evaluates the
+             hypotheses [doc_wf] of theorems 1-10 only on such states, [hyp_state]); excluded: an
+             edit of a duplicate-free paragraph while ANOTHER paragraph still has duplicates;
+        (J2) the step recorded a fresh parse ([s_reparse] is [Some]): [agree] accepts [None];
+        (J3) the lookups under alternative spellings, an observation [agree] never consults, show
+             what the model reads: all [Ok (model value)] after a set, all errors (or the
+             paragraph gone) after a delete.
+        That the model's verdict (accept / reject) on every in-domain call is one the Spec allows
+        - index resolution of both paragraph classes, and PROGRESS: a certainly meaningful edit
+        (valid value, usable arguments, existing or safe name, un-indexed key or index 0) is never
+        rejected - is proved, not assumed ([accept_head], [del_rejected_ok], [set_rejected_ok]).
+        All three conditions are computable from the case; on the quick run they hold on 603 of 604
+        cases (the exception: corpus case multi-para-dup, by J1). *)
+From Verif Require Repro.DocCheckProofs.
+From Verif Require Import Repro.DocCheck.
+Theorem C05_agree_implies_holds :
+  forall c, DocCheckProofs.judged c = true -> DocCheck.agree c = true -> DocCheck.holds c = true.
+Proof. exact DocCheckProofs.agree_implies_holds. Qed.
+
+(** Non-vacuity: a real case (observations copied from a run of the implementation: set under
+    another spelling with a multi-line value, append to the unterminated last paragraph,
+    set_field_to_simple_value with a field comment and index 0, a rejected delete, a delete that
+    empties a paragraph) meets all hypotheses; and the side condition cannot be dropped: the same
+    case with the lookups of the first step missing has [agree] true and [holds] false. *)
+Example C05_agree_implies_holds_nonvacuous :
+  let good := (
+(let s0 := "# h
+" in
+let s1 := "A: 1
+" in
+let s2 := "# c
+" in
+let s3 := "P: q" in
+let s4 := "n
+ l2" in
+let s5 := "B: n
+" in
+let s6 := " l2
+" in
+let s7 := "P: q
+" in
+let s8 := "C: new
+" in
+let s9 := "new" in
+let s10 := "# why
+" in
+let s11 := "A: s
+" in
+let r0 : list (string * result string) := [("A", (Ok "1")); ("B", (Ok s4))] in
+let r1 : list (string * result string) := [("P", (Ok "q"))] in
+let r2 : list (string * result string) := [("P", (Ok "q")); ("C", (Ok s9))] in
+let r3 : list (string * result string) := [("A", (Ok "s")); ("B", (Ok s4))] in
+let r4 : list (string * result string) := [("C", (Ok s9))] in
+Run [s0; "
+"; s1; s2; "B: 2
+"; " x
+"; "
+"; s3] [IO OComment s0; IO OWs "
+"; IP false [("", "A", ": 1
+"); (s2, "B", ": 2
+ x
+")]; IO OWs "
+"; IP false [("", "P", ": q")]] [[("A", (Ok "1")); ("B", (Ok "2
+ x"))]; r1] [LSet 0 (KS "b") s4; LSet 1 (KS "C") " new "; LSimple 0 (KI "A" (0)%Z) "s" None (Some ["why"]); LDel 0 (KI "B" (1)%Z); LDel 1 (KS "p")] [mkS None [s0; "
+"; s1; s2; s5; s6; "
+"; s3] [r0; r1] (Some [r0; r1]) [[(Ok s4); (Ok s4)]; [(Err KeyError); (Err KeyError)]]; mkS None [s0; "
+"; s1; s2; s5; s6; "
+"; s7; s8] [r0; r2] (Some [r0; r2]) [[(Err KeyError); (Err KeyError)]; [(Ok s9); (Ok s9)]]; mkS None [s0; "
+"; s10; s11; s2; s5; s6; "
+"; s7; s8] [r3; r2] (Some [r3; r2]) [[(Ok "s"); (Ok "s")]; [(Err KeyError); (Err KeyError)]]; mkS (Some KeyError) [s0; "
+"; s10; s11; s2; s5; s6; "
+"; s7; s8] [r3; r2] (Some [r3; r2]) [[(Err KeyError); (Err KeyError)]; [(Err KeyError); (Err KeyError)]]; mkS None [s0; "
+"; s10; s11; s2; s5; s6; "
+"; s8] [r3; r4] (Some [r3; r4]) [[(Err KeyError); (Err KeyError)]; [(Err KeyError); (Err KeyError)]]])) in
+  let wrong := (
+(let s0 := "# h
+" in
+let s1 := "A: 1
+" in
+let s2 := "# c
+" in
+let s3 := "P: q" in
+let s4 := "n
+ l2" in
+let s5 := "B: n
+" in
+let s6 := " l2
+" in
+let s7 := "P: q
+" in
+let s8 := "C: new
+" in
+let s9 := "new" in
+let s10 := "# why
+" in
+let s11 := "A: s
+" in
+let r0 : list (string * result string) := [("A", (Ok "1")); ("B", (Ok s4))] in
+let r1 : list (string * result string) := [("P", (Ok "q"))] in
+let r2 : list (string * result string) := [("P", (Ok "q")); ("C", (Ok s9))] in
+let r3 : list (string * result string) := [("A", (Ok "s")); ("B", (Ok s4))] in
+let r4 : list (string * result string) := [("C", (Ok s9))] in
+Run [s0; "
+"; s1; s2; "B: 2
+"; " x
+"; "
+"; s3] [IO OComment s0; IO OWs "
+"; IP false [("", "A", ": 1
+"); (s2, "B", ": 2
+ x
+")]; IO OWs "
+"; IP false [("", "P", ": q")]] [[("A", (Ok "1")); ("B", (Ok "2
+ x"))]; r1] [LSet 0 (KS "b") s4; LSet 1 (KS "C") " new "; LSimple 0 (KI "A" (0)%Z) "s" None (Some ["why"]); LDel 0 (KI "B" (1)%Z); LDel 1 (KS "p")] [mkS None [s0; "
+"; s1; s2; s5; s6; "
+"; s3] [r0; r1] (Some [r0; r1]) []; mkS None [s0; "
+"; s1; s2; s5; s6; "
+"; s7; s8] [r0; r2] (Some [r0; r2]) [[(Err KeyError); (Err KeyError)]; [(Ok s9); (Ok s9)]]; mkS None [s0; "
+"; s10; s11; s2; s5; s6; "
+"; s7; s8] [r3; r2] (Some [r3; r2]) [[(Ok "s"); (Ok "s")]; [(Err KeyError); (Err KeyError)]]; mkS (Some KeyError) [s0; "
+"; s10; s11; s2; s5; s6; "
+"; s7; s8] [r3; r2] (Some [r3; r2]) [[(Err KeyError); (Err KeyError)]; [(Err KeyError); (Err KeyError)]]; mkS None [s0; "
+"; s10; s11; s2; s5; s6; "
+"; s8] [r3; r4] (Some [r3; r4]) [[(Err KeyError); (Err KeyError)]; [(Err KeyError); (Err KeyError)]]])) in
+  (DocCheckProofs.judged good = true /\ DocCheck.agree good = true /\ DocCheck.holds good = true)
+  /\ (DocCheckProofs.judged wrong = false /\ DocCheck.agree wrong = true /\ DocCheck.holds wrong = false).
+Proof. vm_compute. repeat split. Qed.
+
 Print Assumptions C05_set_existing_local.
 Print Assumptions C05_set_existing_local_any_setter.
 Print Assumptions C05_set_new_appends_own_lines.
@@ -579,3 +721,4 @@ Print Assumptions C05_setter_readback.
 Print Assumptions C05_delete_readback.
 Print Assumptions C05_reread.
 Print Assumptions C05_reparse_squash.
+Print Assumptions C05_agree_implies_holds.
